@@ -1082,6 +1082,7 @@ func scopeRegexes(repo string) (domain, repository *regexp.Regexp, err error) {
 		return nil, nil, err
 	}
 	found := map[string]string{}
+	var order []string
 	ast.Inspect(f, func(n ast.Node) bool {
 		fd, ok := n.(*ast.FuncDecl)
 		if !ok {
@@ -1104,6 +1105,7 @@ func scopeRegexes(repo string) (domain, repository *regexp.Regexp, err error) {
 				if bl, ok := call.Args[0].(*ast.BasicLit); ok {
 					if v, err := strconv.Unquote(bl.Value); err == nil {
 						found[id.Name] = v
+						order = append(order, v)
 					}
 				}
 			}
@@ -1113,8 +1115,12 @@ func scopeRegexes(repo string) (domain, repository *regexp.Regexp, err error) {
 	})
 	ds, ok1 := found["domainRegexp"]
 	rs, ok2 := found["repositoryRegexp"]
+	if (!ok1 || !ok2) && len(order) == 2 {
+		// renamed locals: the first expression compiled is the domain's, the second the repository's
+		ds, rs, ok1, ok2 = order[0], order[1], true, true
+	}
 	if !ok1 || !ok2 {
-		return nil, nil, fmt.Errorf("domainRegexp / repositoryRegexp not found in validateRegistryScopeFormat")
+		return nil, nil, fmt.Errorf("the two regular expressions of validateRegistryScopeFormat were not found")
 	}
 	domain, err = regexp.Compile(ds)
 	if err != nil {
